@@ -86,7 +86,11 @@ impl ADoc {
                         .join(", ")
                 )
             };
-            out.push_str(&format!("{} {}{} {{\n", op.kind, op.name, vars));
+            if op.kind.is_empty() {
+                out.push_str("{\n");
+            } else {
+                out.push_str(&format!("{} {}{} {{\n", op.kind, op.name, vars));
+            }
             render_sels(&op.sels, 1, &mut out);
             out.push_str("}\n\n");
         }
